@@ -177,7 +177,13 @@ def run_unit(uname, ucfg, tier, keep=False, extra_kani_args=()):
             if info.get("unsat_cover"):
                 res.status, res.reason = "undecided", "VACUITY: unsatisfied cover in harness %s" % h["name"]
             if info["status"] != "SUCCESSFUL":
-                fcs = info["failed_checks"] or [{"what": "verification failed", "file": None, "line": None}]
+                if not info["failed_checks"]:
+                    # no refuted check in the output: CBMC was killed (harness timeout / memory) or
+                    # gave up -- that is UNDECIDED, never a violation
+                    res.status, res.reason = "undecided", "harness %s ended without a verdict (timeout or out of memory): %s" % (
+                        h["name"], info["block"][-200:].replace("\n", " "))
+                    continue
+                fcs = info["failed_checks"]
                 if all(re.search(r"unwinding assertion|unsupported|not currently supported", fc["what"]) for fc in fcs):
                     res.status, res.reason = "undecided", "harness %s: %s" % (h["name"], fcs[0]["what"])
                     continue
